@@ -88,6 +88,7 @@ def run_case(ctx, gd, ev, cls, via="cg", rng=None, force_again=False, cards=None
 
 
 def run_shard(ctx):
+    gg.ALLOW_ODD = True  # node names that are not Python identifiers are node names like any other
     mon_cf.install_cg()
     mon_cf.CONFIG.update(K={"quick": 2, "thorough": 3}[ctx.tier])
     rng = ctx.rng
